@@ -82,8 +82,13 @@ pub fn gen_elf(rng: &mut Rng, trailing_nonload: bool, shifted_phys: bool) -> Vec
         let pdelta = if shifted_phys && rng.chance(2, 3) { *rng.pick(&[4u32, 0x40, 0x100, 0x1000, 0x2344]) + 4 * rng.below(8) as u32 } else { 0 };
         segs.push(Seg { ty: 1, off: 0, vaddr, pdelta, filesz, memsz });
         blobs.push((k, data));
-        vaddr += memsz + if rng.chance(1, 2) { 0 } else { rng.below(200) as u32 };
-        vaddr = (vaddr + 3) & !3;
+        // the next segment: directly adjacent (gap 0..3, any alignment), or after a gap, long-word aligned
+        if rng.chance(1, 3) {
+            vaddr += memsz + rng.below(4) as u32;
+        } else {
+            vaddr += memsz + if rng.chance(1, 2) { 0 } else { rng.below(200) as u32 };
+            vaddr = (vaddr + 3) & !3;
+        }
     }
     let image_end = segs.iter().map(|s| s.vaddr + s.memsz).max().unwrap_or(0);
     // ---- .got inside the file-backed part of one segment
@@ -190,10 +195,23 @@ pub fn gen_elf(rng: &mut Rng, trailing_nonload: bool, shifted_phys: bool) -> Vec
         }
         syms.extend_from_slice(&be32(idx));
         syms.extend_from_slice(&be32(if i == exit_idx { exit_val } else { rng.u32() }));
-        syms.extend_from_slice(&be32(rng.u32() & 0xffff));
-        syms.push(rng.u8());
-        syms.push(rng.u8());
-        syms.extend_from_slice(&be16(rng.u16()));
+        // st_size, st_info, st_other, st_shndx: half of the time the values the ELF specification gives a meaning to
+        // (bindings / types, visibilities, SHN_UNDEF / small section indices / SHN_ABS / SHN_COMMON / SHN_XINDEX / reserved)
+        syms.extend_from_slice(&be32(if rng.chance(1, 2) { *rng.pick(&[0u32, 1, 2, 4, 8]) } else { rng.u32() & 0xffff }));
+        if rng.chance(1, 2) {
+            syms.push((*rng.pick(&[0u8, 1, 2, 10, 12, 13, 15]) << 4) | *rng.pick(&[0u8, 1, 2, 3, 4, 5, 6, 10, 12, 13, 15]));
+            syms.push(*rng.pick(&[0u8, 1, 2, 3]));
+            let shndx = match rng.below(4) {
+                0 => rng.below(12) as u16,
+                1 => *rng.pick(&[0xfff1u16, 0xfff1, 0xfff2, 0xffff, 0xff00, 0xff1f, 0xff20, 0xff3f, 0]),
+                _ => rng.u16(),
+            };
+            syms.extend_from_slice(&be16(shndx));
+        } else {
+            syms.push(rng.u8());
+            syms.push(rng.u8());
+            syms.extend_from_slice(&be16(rng.u16()));
+        }
     }
     let symtab_off = file.len() as u32;
     file.extend_from_slice(&syms);
@@ -254,13 +272,20 @@ pub fn gen_elf(rng: &mut Rng, trailing_nonload: bool, shifted_phys: bool) -> Vec
     }
     let phoff = file.len() as u32;
     for p in &pht {
-        for v in [p.ty, p.off, p.vaddr, p.vaddr.wrapping_add(p.pdelta), p.filesz, p.memsz, 5, 4] {
+        // p_flags / p_align: nothing in C11 / C12 depends on them, so they take every meaningful and some arbitrary values
+        let pflags = if rng.chance(1, 2) { rng.below(8) as u32 } else { *rng.pick(&[5u32, 6, 4, 0xf0000000, 0x0ff00005]) };
+        let palign = *rng.pick(&[0u32, 1, 2, 4, 4, 0x1000, 0x10000, 3]);
+        for v in [p.ty, p.off, p.vaddr, p.vaddr.wrapping_add(p.pdelta), p.filesz, p.memsz, pflags, palign] {
             file.extend_from_slice(&be32(v));
         }
     }
     let shoff = file.len() as u32;
     for (i, s) in secs.iter().enumerate() {
-        for v in [name_idx[i], s.ty, 0, s.addr, s.off, s.size, s.link, 0, 4, s.entsize] {
+        // sh_flags / sh_info / sh_addralign likewise
+        let shflags = if rng.chance(1, 2) { *rng.pick(&[0u32, 1, 2, 3, 4, 6, 7, 0x10, 0x20, 0x30, 0x40, 0x80, 0x200, 0x400]) } else { rng.u32() & 0xfff };
+        let shinfo = if rng.chance(1, 2) { 0 } else { rng.below(300) as u32 };
+        let shalign = *rng.pick(&[0u32, 1, 2, 4, 4, 8, 16, 3]);
+        for v in [name_idx[i], s.ty, shflags, s.addr, s.off, s.size, s.link, shinfo, shalign, s.entsize] {
             file.extend_from_slice(&be32(v));
         }
     }
